@@ -193,6 +193,75 @@ def inject(rnd, r):
     return (what, ("mtags", i))
 
 
+def declarative(r):
+    """the catalogue read declaratively off the recipe, for every code that does not involve unit classification
+    (codes 24-26, 5xx are left to the model): {(group, index): set(codes)} -- used to turn a model/implementation
+    disagreement into a named failing input"""
+    out = {}
+    for i, a in enumerate(r["arrays"]):
+        c = set()
+        e = a["ent"]
+        c |= ({1} if not e["name"] else set()) | ({2} if not e["type"] else set()) | ({3} if not e["date"] else set())
+        if len(a["dims"]) != len(a["shape"]):
+            c.add(5)
+        for k, (d, n) in enumerate(zip(a["dims"], a["shape"]), 1):
+            if d[0] == "range":
+                if len(d[1]) != n:
+                    c.add(100 + k)
+                if not d[1]:
+                    c.add(300 + k)
+                elif any(x >= y for x, y in zip(d[1], d[1][1:])):
+                    c.add(400 + k)
+            elif d[0] == "set":
+                if d[1] and d[1] != n:
+                    c.add(200 + k)
+            else:
+                if d[1] is None or d[1] == 0:
+                    c.add(600 + k)
+                elif d[1] < 0:
+                    c.add(700 + k)
+        out[("arrays", i)] = c
+    for i, t in enumerate(r["tags"]):
+        c = set()
+        e = t["ent"]
+        c |= ({1} if not e["name"] else set()) | ({2} if not e["type"] else set()) | ({3} if not e["date"] else set())
+        ranks = [len(r["arrays"][j]["shape"]) for j in t["refs"]]
+        if t["npos"] == 0:
+            c.add(20)
+        if ranks:
+            if any(k != t["npos"] for k in ranks):
+                c.add(21)
+            if t["next"]:
+                if t["next"] != t["npos"]:
+                    c.add(23)
+                if any(k != t["next"] for k in ranks):
+                    c.add(22)
+        out[("tags", i)] = c
+    for i, t in enumerate(r["mtags"]):
+        c = set()
+        e = t["ent"]
+        c |= ({1} if not e["name"] else set()) | ({2} if not e["type"] else set()) | ({3} if not e["date"] else set())
+        ranks = [len(r["arrays"][j]["shape"]) for j in t["refs"]]
+        width = lambda sh: 1 if len(sh) == 1 else sh[1]
+        if t["pos"] is None or t["pos"][0] == 0:
+            c.add(30)
+        if ranks:
+            if t["pos"] is not None and any(k != width(t["pos"]) for k in ranks):
+                c.add(31)
+            if t["ext"] is not None and t["ext"][0] != 0:
+                if t["pos"] is not None and t["pos"] != t["ext"]:
+                    c.add(33)
+                if any(k != width(t["ext"]) for k in ranks):
+                    c.add(32)
+        out[("mtags", i)] = c
+    for i, e in enumerate(r["others"]):
+        out[("others", i)] = ({1} if not e["name"] else set()) | ({2} if not e["type"] else set()) | ({3} if not e["date"] else set())
+    return out
+
+
+UNIT_CODES = lambda c: c in (24, 25, 26) or 500 <= c < 600
+
+
 def ostr(s):
     return "(@None str)" if s is None else "(Some %s)" % cstr(s)
 
@@ -290,7 +359,20 @@ def run(ctx):
             st["broken"].append("model evaluation failed: %s" % e)
         for i, code in verd:
             k = idx[i]
-            disagreements.append({"recipe": cases[k], "injected": [[a, list(b)] for a, b in injected[k]], "implementation": impl[k]["errors"]})
+            want = declarative(cases[k])
+            flat = [(g, j) for g in groups for j in range(len(cases[k][g]))]
+            named = None
+            for key, errs in zip(flat, impl[k]["errors"]):
+                got = set(c for c in errs if not UNIT_CODES(c))
+                if got != want[key]:
+                    named = ("the report of an object differs from the catalogue", {"object": list(key), "missing": sorted(want[key] - got),
+                                                                                     "surplus": sorted(got - want[key])})
+                    break
+            inp = {"recipe": cases[k], "injected": [[a, list(b)] for a, b in injected[k]]}
+            if named:
+                failures.append((named[0], inp, named[1]))
+            else:
+                disagreements.append(dict(inp, implementation=impl[k]["errors"]))
     else:
         st["broken"].append("model Pure/ValidatorCheck.v does not build")
     if failures:
